@@ -38,13 +38,13 @@ def surface_velocity(self: Roll, cycle):
 
 @Roll.rotational_frequency
 def rotational_frequency_from_surface_velocity(self: Roll, cycle):
-    if not cycle:
+    if not cycle and self.has_value("surface_velocity"):
         return self.surface_velocity / (2 * np.pi * self.nominal_radius)
 
 
 @Roll.rotational_frequency
 def rotational_frequency_from_working_velocity(self: Roll, cycle):
-    if not cycle:
+    if not cycle and self.has_value("working_velocity"):
         return self.working_velocity / (2 * np.pi * self.working_radius)
 
 
